@@ -754,8 +754,14 @@ class AndMaybeMatcher(AdditiveBiMatcher):
         elif not b_active:
             return a.replace(minquality)
 
-        new_a = a.replace(minquality - b.max_quality())
-        new_b = b.replace(minquality - a.max_quality())
+        if minquality:
+            new_a = a.replace(minquality - b.max_quality())
+            new_b = b.replace(minquality - a.max_quality())
+        else:
+            # Without a threshold there is no reason to ask for quality
+            # estimates (which some scorers do not support)
+            new_a = a.replace()
+            new_b = b.replace()
         if new_a is not a or new_b is not b:
             # If one of the sub-matchers changed, return a new AndMaybe
             return self.__class__(new_a, new_b)
